@@ -1,7 +1,7 @@
 #!/bin/bash
 # run every claimed check on /repo as it is; summary at the end
-cd /verif
-for id in $(python3 -c "import json; print(' '.join(sorted(json.load(open('/verif/props.json')))))"); do
+cd "$(dirname "$0")/.."
+for id in $(python3 -c "import json; print(' '.join(sorted(json.load(open('props.json')))))"); do
   s=$(date +%s); out=$(timeout 3000 ./check $id --tier ${1:-quick} 2>&1 | tail -4); rc=$?
   echo "== $id $(( $(date +%s) - s ))s :: $(echo "$out" | tail -1 | cut -c1-200)"
   echo "$out" | grep -E "VIOLATION|UNDECIDED|TOOL-ERROR|KNOWN" | cut -c1-300
